@@ -49,6 +49,7 @@ func Run(o *drv.Out) {
 	if o.Tier == "race" {
 		// reduced scenario for the binary built with -race (started by the thorough run, see race.go)
 		tappedCases(o, base)
+		concurrentSmallAndLarge(o, base)
 		rawCases(o, base)
 		return
 	}
@@ -56,6 +57,9 @@ func Run(o *drv.Out) {
 	t0 := time.Now()
 	tappedCases(o, base)
 	o.Extra["c18_tapped_s"] = time.Since(t0).Seconds()
+	t0 = time.Now()
+	concurrentSmallAndLarge(o, base)
+	o.Extra["c18_interleave_s"] = time.Since(t0).Seconds()
 	t0 = time.Now()
 	rawCases(o, base)
 	o.Extra["c18_raw_s"] = time.Since(t0).Seconds()
